@@ -6,8 +6,11 @@ Case kinds (same JSON goes to `lean/Drivers/Formula.lean`):
   run      : {"kind","toks","rounds"}                  real: FormulaBuilder(...).build() engine fed through Broadcast channels
   string   : {"kind","s","z","zids","rounds"}          real: ResampledFormulaBuilder.from_string (per-id flags: same loop
                                                              with push_component_metric(id, nones_are_zeros=flag(id)))
-  ho       : {"kind","tree","z","rounds"}              real: level-1 engines composed with the Python operators/methods,
-                                                             then HigherOrderFormulaBuilder.build(nones_are_zeros=z)
+  ho       : {"kind","tree","z","rounds"[,"prog"]}     real: level-1 engines composed with the Python operators/methods,
+                                                             then HigherOrderFormulaBuilder.build(nones_are_zeros=z).
+             "tree" is the expression as written (a value); "prog" (optional) says how it is written in Python with
+             builder OBJECTS bound to variables and reused: [{"let": node} | {"drop": node} …, {"ret": node}], where a node
+             may be {"var": k} (the k-th let) wherever a builder may stand; "drop" = an operation whose result is thrown away.
 All engines run on ONE `async_solipsism` loop per batch (virtual clock).  A round = one sample per input stream,
 all of one timestamp; the engine's answer is awaited with a (virtual) timeout — no answer = the sample was dropped.
 Values: rationals as strings; inputs restricted so that every float operation of the real run is exact.
@@ -395,6 +398,79 @@ def gen_ho(rng: random.Random, engines: list[int], depth: int, min_ops: int = 1)
     return builder(depth, min_ops)
 
 
+def ho_expand(node: dict, defs: list[dict]) -> dict:
+    """The expression a prog node denotes (variables replaced by the expressions they were bound to)."""
+    if "var" in node:
+        return defs[node["var"]]
+    if "start" in node:
+        return node
+    out = dict(node)
+    out["b"] = ho_expand(node["b"], defs)
+    if "r" in node:
+        out["r"] = ho_expand(node["r"], defs)
+    return out
+
+
+def ho_prog_tree(prog: list[dict]) -> dict:
+    defs: list[dict] = []
+    for st in prog:
+        if "let" in st:
+            defs.append(ho_expand(st["let"], defs))
+        elif "ret" in st:
+            return ho_expand(st["ret"], defs)
+    raise ValueError("prog without ret")
+
+
+def gen_ho_prog(rng: random.Random, engines: list[int], depth: int) -> list[dict]:
+    """A composition written with builder objects bound to variables and REUSED: in two expressions, twice inside one
+    expression, and after an operation on them whose result is discarded."""
+
+    def rhs(nvars: int, d: int) -> dict:
+        r = rng.random()
+        if r < 0.35:
+            return {"eng": rng.choice(engines)}
+        if r < 0.5:
+            return {"const": rat(Fraction(rng.choice([0, 1, 2, -2, 4, Fraction(1, 2)])))}
+        if nvars and r < 0.85:
+            return {"r": {"var": rng.randrange(nvars)}}
+        return {"r": gen_ho(rng, engines, max(d - 1, 0))}
+
+    def expr(nvars: int, d: int, must_use_var: bool) -> dict:
+        node: dict = {"var": rng.randrange(nvars)} if nvars and (must_use_var or rng.random() < 0.6) \
+            else {"start": rng.choice(engines)}
+        for _ in range(rng.randint(1, 2 + d)):
+            if rng.random() < 0.15:
+                node = {"b": node, "un": rng.choice(UN_API)}
+            else:
+                node = {"b": node, "o": rng.choice(BIN_API), **rhs(nvars, d)}
+        return node
+
+    pattern = rng.random()
+    prog: list[dict] = [{"let": gen_ho(rng, engines, min(depth, 1))}]
+    if pattern < 0.25:      # x * x
+        ret = {"b": {"var": 0}, "o": rng.choice(BIN_API), "r": {"var": 0}}
+        if rng.random() < 0.5:
+            ret = {"b": ret, "o": rng.choice(BIN_API), **rhs(1, depth)}
+        prog.append({"ret": ret})
+    elif pattern < 0.5:     # x = …; x <op> …  (discarded); z = x <op> …
+        for _ in range(rng.randint(1, 2)):
+            prog.append({"drop": expr(1, 0, True)})
+        prog.append({"ret": expr(1, depth, True)})
+    elif pattern < 0.75:    # x used in two expressions
+        prog.append({"let": expr(1, 1, True)})
+        prog.append({"ret": {"b": {"var": rng.randrange(2)}, "o": rng.choice(BIN_API), "r": {"var": rng.randrange(2)}}})
+    else:                   # free mix
+        nv = 1
+        for _ in range(rng.randint(1, 3)):
+            if rng.random() < 0.5:
+                prog.append({"let": expr(nv, 1, False)})
+                nv += 1
+            else:
+                prog.append({"drop": expr(nv, 1, True)})
+        prog.append({"ret": expr(nv, depth, True)})
+    return prog
+
+
 def gen_tok_stream(rng: random.Random, ids: list[int], valid: bool) -> list[dict]:
     """Token calls on a bare FormulaBuilder: infix over all ten operator strings, constants, clippers and
     per-metric nones_are_zeros flags (the first flag of a name wins: `setdefault`)."""
@@ -630,6 +706,8 @@ async def real_string(case: dict) -> dict:
 
 
 def _ho_engines(tree: dict) -> set[int]:
+    if "var" in tree:
+        return set()
     if "start" in tree:
         return {tree["start"]}
     s = _ho_engines(tree["b"])
@@ -640,12 +718,15 @@ def _ho_engines(tree: dict) -> set[int]:
     return s
 
 
-def _ho_apply(node: dict, engines: dict[int, Any]):
-    """Evaluate the tree with the REAL operators / methods of FormulaEngine and HigherOrderFormulaBuilder."""
+def _ho_apply(node: dict, engines: dict[int, Any], variables: list | None = None):
+    """Evaluate the tree with the REAL operators / methods of FormulaEngine and HigherOrderFormulaBuilder.
+    {"var": k} is the Python OBJECT the k-th `let` produced (no copy: this is what reusing a builder means)."""
     Q = R()["Quantity"]
+    if "var" in node:
+        return variables[node["var"]]
     if "start" in node:
         return engines[node["start"]]
-    b = _ho_apply(node["b"], engines)
+    b = _ho_apply(node["b"], engines, variables)
     if "un" in node:
         return b.consumption() if node["un"] == "consumption" else b.production()
     op = node["o"]
@@ -655,7 +736,7 @@ def _ho_apply(node: dict, engines: dict[int, Any]):
         c = float(Fraction(node["const"]))
         other = c if op in "*/" else Q(c)
     else:
-        other = _ho_apply(node["r"], engines)
+        other = _ho_apply(node["r"], engines, variables)
     if op == "+":
         return b + other
     if op == "-":
@@ -682,21 +763,39 @@ async def real_ho(case: dict) -> dict:
     r = R()
     tree, z = case["tree"], case["z"]
     ids = sorted(_ho_engines(tree))
-    chans = {i: r["Broadcast"](name=f"in{i}") for i in ids}
+    # engines that only occur in discarded / unused sub-expressions exist too, but are never fed
+    all_ids = set(ids)
+    for st in case.get("prog") or []:
+        for node in st.values():
+            all_ids |= _ho_engines(node)
+    chans = {i: r["Broadcast"](name=f"in{i}") for i in sorted(all_ids)}
     engines = {}
-    for i in ids:
+    for i in sorted(all_ids):
         name = f"#{i}"
         b = r["FormulaBuilder"](name, create_method=r["Quantity"])
         b.push_metric(name, chans[i].new_receiver(), nones_are_zeros=False)
         engines[i] = r["FormulaEngine"](b, create_method=r["Quantity"])
-    hob = _ho_apply(tree, engines)
+    if case.get("prog"):
+        if ho_prog_tree(case["prog"]) != tree:
+            raise AssertionError("harness: prog and tree of the case disagree")
+        variables: list = []
+        hob = None
+        for st in case["prog"]:
+            if "let" in st:
+                variables.append(_ho_apply(st["let"], engines, variables))
+            elif "drop" in st:
+                _ho_apply(st["drop"], engines, variables)
+            else:
+                hob = _ho_apply(st["ret"], engines, variables)
+    else:
+        hob = _ho_apply(tree, engines)
     toks = [_ho_tok_repr(t, v) for t, v in hob._steps]  # pylint: disable=protected-access
     engine = hob.build("l2", nones_are_zeros=z)
     steps = [step_repr(x) for x in engine._builder._steps]  # pylint: disable=protected-access
     rounds = _fill_rounds(case, steps, ids)
     rx = engine.new_receiver()
     await asyncio.sleep(0)
-    out = await _feed_and_collect(rx, {i: c.new_sender() for i, c in chans.items()}, rounds)
+    out = await _feed_and_collect(rx, {i: chans[i].new_sender() for i in ids}, rounds)
     await engine._stop()  # pylint: disable=protected-access
     for e in engines.values():
         await e._stop()  # pylint: disable=protected-access
@@ -791,6 +890,8 @@ def case_tags(case: dict, a: Any | None) -> tuple[list[str], bool]:
                 tags.append("reassociated(a+b-c|a*b/c)")
             if case["zids"]:
                 tags.append("per-id-flags")
+        if case.get("prog"):
+            tags.append("builder-reuse")
         if any(o in ops for o in ("max", "min")):
             tags.append("minmax")
         if any(o in ops for o in UN_API):
